@@ -34,9 +34,17 @@ pub fn txs_to_csv(txs: &[Tx]) -> String {
     let mut s = String::from(
         "security,trade date,settlement date,action,shares,amount/share,commission,currency,exchange rate,commission currency,commission exchange rate,superficial loss,split ratio,affiliate,memo\n",
     );
-    for t in txs {
+    for (ri, t) in txs.iter().enumerate() {
         let d = |x: time::Date| date_str(x);
-        let aff = if t.affiliate.is_global() { String::new() } else { t.affiliate.name().to_string() };
+        let mut aff = if t.affiliate.is_global() { String::new() } else { t.affiliate.name().to_string() };
+        // the same affiliate typed in another capitalisation in some later rows (one ledger all the same)
+        if ri >= 3 && !aff.is_empty() {
+            match (ri * 7 + aff.len()) % 13 {
+                0 => aff = aff.to_uppercase(),
+                1 => aff = aff.to_lowercase(),
+                _ => {}
+            }
+        }
         let (act, sh, px, comm, cur, fx, ccur, cfx, sfl, ratio) = match &t.action_specifics {
             TxActionSpecifics::Buy(b) => (
                 "Buy",
